@@ -375,10 +375,11 @@ def run_tee(ctx: Ctx, res: Result, corpus: list, t_end: float) -> None:
                         continue
                     configs.append({"n": n, "xs": list(range(5, 5 + L)), "mode": mode, "fine": False,
                                     "extra": 1 if (L <= 1 and mode == "gate") else 0})
-    for cfg in configs:
+
+    def explore(cfg: dict) -> None:
         if time.time() > t_end:
             partial.append(f"n={cfg['n']} len={len(cfg['xs'])} {cfg['mode']}: not started")
-            continue
+            return
         cnt = 0
         left = 0
         for b in dfs(cfg, cap, t_end):
@@ -399,10 +400,18 @@ def run_tee(ctx: Ctx, res: Result, corpus: list, t_end: float) -> None:
                     flush()
             tag += f" by DFS (not exhausted) + {extra_n} random"
         (full if left == 0 else partial).append(tag)
+
+    big = [c for c in configs if c["mode"] == "gate" and c["n"] == 3 and len(c["xs"]) >= 2
+           or c["mode"] == "gate" and c["n"] == 2 and len(c["xs"]) >= 4]
+    t_total = t_end
+    # 1a. the small configurations
+    t_end = time.time() + 0.35 * max(t_total - time.time(), 0.0)
+    for cfg in configs:
+        if cfg not in big:
+            explore(cfg)
     flush()
-    st["coarse_exhaustive"] = full
-    st["coarse_partial"] = partial
     # 2. random schedules: larger coarse cases and fine-grained ones (loop cycles as letters)
+    t_end = time.time() + 0.45 * max(t_total - time.time(), 0.0)
     nrand = ctx.n(500, 30000)
     for k in range(nrand):
         if time.time() > t_end:
@@ -418,6 +427,13 @@ def run_tee(ctx: Ctx, res: Result, corpus: list, t_end: float) -> None:
             flush()
     flush()
     st["random_runs"] = nrand
+    # 1b. the large configurations with what is left of the time
+    t_end = t_total
+    for cfg in big:
+        explore(cfg)
+    flush()
+    st["coarse_exhaustive"] = full
+    st["coarse_partial"] = partial
 
 
 def replay_tee(case: dict, res: Result) -> None:
